@@ -250,7 +250,7 @@ impl Ctx {
     }
 
     pub fn stopped(&self) -> bool {
-        !self.failures.is_empty()
+        !self.failures.is_empty() && !keep_going()
     }
 
     pub fn eval(&mut self) {
@@ -348,7 +348,12 @@ impl Ctx {
     /// Record a violation found outside proptest (enumerations, sweeps).
     pub fn fail(&mut self, f: Failure) {
         if let Err(f) = self.judge(f) {
-            if self.failures.len() < 3 {
+            if keep_going() {
+                // triage mode: one failure per distinct signature
+                if self.failures.len() < 400 && !self.failures.iter().any(|g| g.sig == f.sig) {
+                    self.failures.push(f);
+                }
+            } else if self.failures.len() < 3 {
                 self.failures.push(f);
             }
         }
@@ -443,6 +448,11 @@ impl Ctx {
             "inconclusive": self.inconclusive,
         })
     }
+}
+
+/// Triage mode (VERIF_KEEP_GOING=1): do not stop at the first violation.
+pub fn keep_going() -> bool {
+    std::env::var("VERIF_KEEP_GOING").map(|v| v == "1").unwrap_or(false)
 }
 
 fn judged<F>(ctx: &mut Ctx, test: &mut F, v: &[u8]) -> Result<(), Failure>
